@@ -276,11 +276,15 @@ type devs struct {
 	plzOutAnyDepth   bool // in the root package any entry *named* plz-out is skipped (a non-directory one cuts its siblings)
 }
 
-var devNames = []string{"hidden-dir-contents", "qmark-matches-slash", "negated-class-matches-slash",
-	"leading-doublestar-root-package", "package-root-returned", "plz-out-name-any-depth"}
+// Order = priority when several single deviations explain an output equally well: the ones still present in the code
+// come first, the ones repaired by fix: commits (qmark, leading `**/`) last, so that those classes are only named when
+// nothing else explains the output.
+var devNames = []string{"hidden-dir-contents", "negated-class-matches-slash", "package-root-returned", "plz-out-name-any-depth",
+	"qmark-matches-slash", "leading-doublestar-root-package"}
 
 func devsOf(mask int) devs {
-	return devs{mask&1 != 0, mask&2 != 0, mask&4 != 0, mask&8 != 0, mask&16 != 0, mask&32 != 0}
+	return devs{hiddenBaseOnly: mask&1 != 0, negClassSlash: mask&2 != 0, rootReturned: mask&4 != 0, plzOutAnyDepth: mask&8 != 0,
+		qmarkSlash: mask&16 != 0, leadingDstarRoot: mask&32 != 0}
 }
 
 type seg struct {
